@@ -4454,6 +4454,8 @@ class Frame(ContainerOperand):
 
         for idx, group in enumerate(groups):
             selection = locations == idx
+            if group_to_tuple:
+                group = tuple(group)
 
             if axis == 0:
                 # axis 0 is a row iter, so need to slice index, keep columns
